@@ -53,6 +53,8 @@ def canon_impl(r):
 
 
 def canon_model(line):
+    if line in ("OK", "unbound", "rebound", "badtree"):
+        return (line, [])
     f = line.split(" ", 1)
     st = f[0]
     rest = f[1] if len(f) > 1 else ""
